@@ -683,10 +683,28 @@ func isIntegerValue(v ssa.Value) bool {
 	return strings.HasPrefix(s, "int") || strings.HasPrefix(s, "uint") || s == "byte"
 }
 
+var decoderPkgs = []string{"pkg/format/rtph264", "pkg/format/rtph265", "pkg/format/rtpav1", "pkg/format/rtpvp8", "pkg/format/rtpvp9", "pkg/format/rtpmpeg4audio", "pkg/format/rtpfragmented", "pkg/format/rtpmpeg1audio", "pkg/format/rtpmpeg1video", "pkg/format/rtpmjpeg", "pkg/format/rtpac3", "pkg/format/rtplpcm", "pkg/format/rtpsimpleaudio", "pkg/format/rtpmpegts", "pkg/format/rtpklv"}
+
+func notEncoder(f string) bool { return strings.HasSuffix(f, "encoder.go") }
+
+// noPanicFor registers the bounds rule of a property over its packages.
+func noPanicFor(c *Ctx, prop string) {
+	switch prop {
+	case "C04":
+		noPanicRule(c, "C04/NO-PANIC", []string{"pkg/base", "pkg/conn", "internal/base64streamreader"}, nil, 20)
+	case "C05":
+		noPanicRule(c, "C05/NO-PANIC", []string{"pkg/sdpunmarshaler", "pkg/description", "pkg/format"}, nil, 20)
+	case "C08":
+		noPanicRule(c, "C08/NO-PANIC", append([]string{"pkg/format", "pkg/rtcpunmarshaler"}, decoderPkgs...), notEncoder, 60)
+	case "C09":
+		noPanicRule(c, "C09/NO-PANIC", []string{"pkg/headers", "pkg/mikey", "pkg/auth"}, nil, 35)
+	case "C11", "C12":
+		noPanicRule(c, prop+"/NO-PANIC", []string{"pkg/base", "pkg/conn", "internal/base64streamreader", "pkg/headers", "pkg/mikey", "pkg/auth", "pkg/sdpunmarshaler", "pkg/description", "pkg/format", "pkg/rtcpunmarshaler"}, nil, 100)
+	}
+}
+
 func init() {
 	Registry["BOUNDS"] = func(c *Ctx) {
-		noPanicRule(c, "NO-PANIC", []string{"pkg/base", "pkg/conn", "pkg/headers", "pkg/mikey", "pkg/sdpunmarshaler", "pkg/description", "pkg/format", "pkg/rtcpunmarshaler", "internal/base64streamreader", "pkg/auth",
-			"pkg/format/rtph264", "pkg/format/rtph265", "pkg/format/rtpav1", "pkg/format/rtpvp8", "pkg/format/rtpvp9", "pkg/format/rtpmpeg4audio", "pkg/format/rtpfragmented", "pkg/format/rtpmpeg1audio", "pkg/format/rtpmpeg1video", "pkg/format/rtpmjpeg", "pkg/format/rtpac3", "pkg/format/rtplpcm", "pkg/format/rtpsimpleaudio", "pkg/format/rtpmpegts", "pkg/format/rtpklv"},
-			func(f string) bool { return strings.HasSuffix(f, "encoder.go") }, 100)
+		noPanicRule(c, "NO-PANIC", append([]string{"pkg/base", "pkg/conn", "pkg/headers", "pkg/mikey", "pkg/sdpunmarshaler", "pkg/description", "pkg/format", "pkg/rtcpunmarshaler", "internal/base64streamreader", "pkg/auth"}, decoderPkgs...), notEncoder, 100)
 	}
 }
